@@ -536,6 +536,11 @@ def gen_sims(ctx):
     kinds_by_cls = {"thr": ["clean", "scaled", "sub", "mix", "unrelated"],
                     "wta": ["clean", "scaled", "sub", "mix", "unrelated"],
                     "ia": ["clean", "scaled", "mix", "unrelated"]}
+    # fixed competition cases (every run): two-key mixtures against MANY stored keys, where lateral inhibition and
+    # thresholds have the least margin
+    for cls_, nk_, th_ in (("wta", 5, 0.3), ("wta", 4, 0.2), ("thr", 5, 0.3), ("ia", 4, 0.3)):
+        yield dict(cls=cls_, kind="mix", threshold=th_, default=None, d=32, axis=False, nkeys=nk_, neuron="LIFRate",
+                   seed=1000 + nk_)
     combos = [(c, k) for c in CLASSES for k in kinds_by_cls[c]]
     rng.shuffle(combos)
     for i in range(total):
